@@ -207,6 +207,10 @@ func c07Round(c *Ctx, idx int) {
 	for range 4 {
 		directed = append(directed, hostileTS...)
 	}
+	// literal-argument forms: always cold (first evaluated by the goroutines)
+	nLiteralFrom := len(directed)
+	directed = append(directed, c07LiteralForms()...)
+	nLiteralTo := len(directed)
 	// expressions + sequential outcomes
 	var items []c07Item
 	nodeTypes := map[string]bool{}
@@ -223,6 +227,9 @@ func c07Round(c *Ctx, idx int) {
 			}
 			if len(items) >= nHostileFrom {
 				d = 9
+			}
+			if len(items) >= nLiteralFrom {
+				d = 0
 			}
 			goto have
 		}
@@ -272,6 +279,9 @@ func c07Round(c *Ctx, idx int) {
 		// library initialises lazily and process-wide is initialised concurrently; its
 		// sequential outcome is computed after the concurrent phase
 		it.cold = len(items)%3 == 2 || docs[d] == nil // the foreign document is first seen by the library under concurrency
+		if len(items) >= nLiteralFrom && len(items) < nLiteralTo {
+			it.cold = true
+		}
 		if !it.cold {
 			l := c.LibSearch(text, godocs[d])
 			if l.Panic != nil && len(items) >= len(directed) {
